@@ -139,6 +139,20 @@ impl Check for C18 {
             3 => vec![CallSpec::Setup { problem: 0 }, gen::construct_call(n), CallSpec::SetProblem { problem: 1 }, gen::construct_call(n), big(), CallSpec::SetProblem { problem: 0 }, big()],
             _ => vec![CallSpec::Setup { problem: 1 }, gen::construct_call(n), big(), big()],
         };
+        // a slow query: one validity query of the start-attachment phase takes ten times the
+        // query's time limit (that phase runs before PRM::solve starts its clock, so the answer
+        // must be the complete one — or Timeout — all the same)
+        if rng.chance(0.25) {
+            for c in scn.calls.iter_mut() {
+                if let CallSpec::Solve { timeout_ns, stalls } = c {
+                    if rng.chance(0.7) {
+                        *timeout_ns = 1_000_000_000;
+                        *stalls = vec![Stall { at: Phase::Valid, nth: 1 + rng.below(3 * n.max(1)), ns: 10_000_000_000 }];
+                    }
+                }
+            }
+            scn.params.insert("slow_query".into(), 1.0);
+        }
         // the construction deadline may also fall inside a validity query of the last sample's
         // neighbour sweep (the model reads milestones off the history whatever the deadline did)
         if rng.chance(0.3) {
